@@ -59,6 +59,32 @@ def child_main(path):
     a = None
     if job.get('preopen', True):
         a = gen.build_archive(klepto, b, root, public=False)
+    if job.get('fork'):
+        # the common multiprocessing pattern: the archive object is created once and inherited by
+        # forked workers, which then use it concurrently
+        pids = []
+        for wi, wops in enumerate(job['fork']):
+            pid = os.fork()
+            if pid == 0:
+                try:
+                    rec = run_ops(klepto, archmon, a, b, root, wops)
+                    with open(job['out'] + '.w%d' % wi, 'w') as f:
+                        json.dump(rec, f)
+                finally:
+                    os._exit(0)
+            pids.append(pid)
+        for pid in pids:
+            os.waitpid(pid, 0)
+        allrec = []
+        for wi in range(len(job['fork'])):
+            try:
+                with open(job['out'] + '.w%d' % wi) as f:
+                    allrec.append(json.load(f))
+            except Exception:
+                allrec.append(None)
+        with open(job['out'], 'w') as f:
+            json.dump({'forked': allrec}, f)
+        return
     rec = []
     if job.get('gated'):
         arm('gate/on')
@@ -66,8 +92,17 @@ def child_main(path):
             os.stat(os.path.join(root, '.barrier'))     # first gated event = start barrier
         except OSError:
             pass
+    rec = run_ops(klepto, archmon, a, b, root, job['ops'])
+    if job.get('gated'):
+        arm('gate/off')
+    with open(job['out'], 'w') as f:
+        json.dump(rec, f)
+
+
+def run_ops(klepto, archmon, a, b, root, ops):
+    rec = []
     mono = time.monotonic_ns
-    for op in job['ops']:
+    for op in ops:
         o = op[0]
         r = {'op': o, 'key': op[1] if len(op) > 1 and o in ('set', 'get', 'in') else None}
         r['call'] = mono()
@@ -106,10 +141,7 @@ def child_main(path):
             r['exc'] = '%s: %s' % (type(e).__name__, str(e)[:120])
         r['ret'] = mono()
         rec.append(r)
-    if job.get('gated'):
-        arm('gate/off')
-    with open(job['out'], 'w') as f:
-        json.dump(rec, f)
+    return rec
 
 
 # =========================================================================================
@@ -281,6 +313,10 @@ def gen_case(rng, prop='C14', free=False):
         jobs.append({'ops': rops})
         if rng.random() < 0.3:
             jobs.append({'ops': [rng.choice([['get', 'k'], ['items'], ['in', 'base']]) for _ in range(m)]})
+    if free and kind in ('dir',) and rng.random() < 0.35:
+        wl = 'forked-writers'
+        nw = rng.choice([2, 3, 4])
+        jobs = [{'ops': [], 'fork': [[['set', 'f%d_%d' % (w, j), val('f%d' % w)] for j in range(n)] for w in range(nw)]}]
     policy = rng.choice(['random', 'random', 'sticky', 'pct'])
     return {'backend': b, 'workload': wl, 's0': s0, 'jobs': jobs, 'policy': policy, 'free': free,
             'seed': rng.randrange(1 << 30)}
@@ -456,6 +492,14 @@ def run_case(case, prop='C14'):
             outs, trace, ok = run_free(jobs, sc)
         else:
             outs, trace, ok = run_gated(jobs, sc, rng, case.get('policy', 'random'))
+        flat = []
+        for o in outs:
+            if isinstance(o, dict) and 'forked' in o:
+                flat.extend(o['forked'])
+                cnt['c14_forked_handle_runs'] = 1
+            else:
+                flat.append(o)
+        outs = flat
         if not ok:
             cnt['c14_watchdog_expired'] = 1
             return [], cnt, None
